@@ -1025,7 +1025,21 @@ fn sweep_lengths(thorough: bool) -> Vec<usize> {
 }
 
 fn sweep_counts() -> Vec<usize> {
-    vec![0, 1, 2, 31, 32, 33, 63, 64, 65, 127, 128, 129, 255, 256, 257, 1000]
+    let mut v = vec![0, 1, 2, 31, 32, 33, 63, 64, 65, 127, 128, 129, 255, 256, 257, 1000];
+    // beyond the fully swept range (0..4100): the thresholds the code itself mentions (and their small multiples),
+    // powers of two and the largest counts a frame of 65,535 one-byte elements can hold
+    let mut big: Vec<usize> = vec![8_191, 8_192, 8_193, 16_384, 32_768, 65_535];
+    for n in numeric_literals().iter().cloned().filter(|n| *n > 4_100 && *n <= 65_535).take(12) {
+        for k in 1..=3 {
+            if n * k <= 65_535 {
+                big.extend([n * k - 1, n * k, n * k + 1]);
+            }
+        }
+    }
+    big.sort();
+    big.dedup();
+    v.extend(big.into_iter().filter(|n| *n <= 65_536));
+    v
 }
 
 /// Valid v3 packets on a GRID instead of at random: one text field swept through the lengths where a
@@ -1132,7 +1146,7 @@ pub fn sweep_v3(thorough: bool) -> Vec<v3::Packet> {
             out.push(Packet::Suback(Suback { pid: Pid::try_from(5).unwrap(), topics: run }));
         }
         out.push(Packet::Suback(Suback { pid: Pid::try_from(5).unwrap(), topics: (0..n).map(|i| [SubscribeReturnCode::MaxLevel0, SubscribeReturnCode::MaxLevel2, SubscribeReturnCode::Failure][i % 3]).collect() }));
-        if n > 0 {
+        if n > 0 && n <= 1000 {
             out.push(Packet::Subscribe(Subscribe { pid: Pid::try_from(6).unwrap(), topics: (0..n).map(|i| (TopicFilter::try_from(format!("a/{}", i % 7)).unwrap(), QoS::Level1)).collect() }));
             out.push(Packet::Unsubscribe(Unsubscribe { pid: Pid::try_from(7).unwrap(), topics: (0..n).map(|_| TopicFilter::try_from("same/+".to_string()).unwrap()).collect() }));
         }
@@ -1333,6 +1347,9 @@ pub fn sweep_v5(thorough: bool) -> Vec<v5::Packet> {
         }
         out.push(Packet::Suback(Suback { pid: Pid::try_from(5).unwrap(), properties: Default::default(), topics: (0..n).map(|i| [SubscribeReasonCode::GrantedQoS0, SubscribeReasonCode::GrantedQoS2, SubscribeReasonCode::NotAuthorized][i % 3]).collect() }));
         out.push(Packet::Unsuback(Unsuback { pid: Pid::try_from(5).unwrap(), properties: Default::default(), topics: (0..n).map(|i| [UnsubscribeReasonCode::Success, UnsubscribeReasonCode::NoSubscriptionExisted][i % 2]).collect() }));
+        if n > 1000 {
+            continue; // (beyond 1000 only the one-byte-element lists)
+        }
         out.push(Packet::Pubrec(Pubrec { pid: Pid::try_from(8).unwrap(), reason_code: PubrecReasonCode::Success, properties: PubrecProperties { reason_string: None, user_properties: users(n) } }));
         if n > 0 {
             out.push(Packet::Subscribe(Subscribe { pid: Pid::try_from(6).unwrap(), properties: Default::default(), topics: (0..n).map(|i| (TopicFilter::try_from(format!("a/{}", i % 7)).unwrap(), SubscriptionOptions::new(QoS::Level2))).collect() }));
